@@ -87,8 +87,11 @@ struct CoreEngine : Engine {
         // C03: base run plus two differential variants
         Outcome base;
         RunResult rr = execute_once(p, trace, true, false, &base);
-        bool has_errno = false, has_loop = false;
-        for (auto &op : p.ops) { if (op.name == "errno") has_errno = true; if (op.name == "loop") has_loop = true; }
+        bool has_errno = false, has_loop = false, has_task = false;
+        for (auto &op : p.ops) { if (op.name == "errno") has_errno = true; if (op.name == "loop") has_loop = true; if (op.name == "src_task") has_task = true; }
+        // a task source brings a second thread: its interleaving with the loop thread differs between the two drivers (different
+        // yield points), so which poll sees the completion is not comparable
+        if (has_task) has_loop = false;
         if (has_errno) {
             // errno values left behind by user callbacks are not an input of the library
             Outcome v;
